@@ -149,6 +149,11 @@ class SMCSampler(MCMCSampler):
             if self.adaptive_min_step and beta_star < 1.0:
                 min_step = min_step * (1 - beta_prev) / (1 - beta_star)
             beta = max(beta_star, beta_prev + min_step)
+            if beta <= beta_prev:
+                # No step larger than the tolerance meets the target (e.g. a
+                # very peaked likelihood) and there is no minimum step: take
+                # the smallest rejected step so that the run always advances
+                beta = beta_max
             beta = min(beta, 1.0)
         return beta, min_step
 
